@@ -7,7 +7,7 @@ import z3
 
 from pyvc.engine import Contract, LoopSpec
 from pyvc.theories.atoms import ENV, OPS4, STRL, EnvMapping, distinct, mem
-from pyvc.values import AList, NOTIMPL, Obj, OutsideSubset, fresh_name
+from pyvc.values import AList, NOTIMPL, Obj, OutsideSubset, fresh_name  # noqa: F401
 
 S = "dep_logic.markers.single:"
 VERSION_LIKE = ["python_version", "python_full_version", "platform_release"]
@@ -256,6 +256,133 @@ class BridgeB2:
                             ("C03.atom.evaluate-equals-packaging-eval-op", b(v[0]) == pk)]
                 yield {"name": f"{o}|reversed={rev}", "pre": [string_name(a.fields["name"])], "thunk": thunk,
                        "post": post, "args": (a,), "describe": describe}
+
+
+# ---------------------------------------------------------------- version-valued atoms: the merge logic over abstract specifier views
+class FromSpecifierAtCallSite(Contract):
+    """MarkerExpression.from_specifier used modularly: None, the universal / empty marker exactly for a universal / empty set, or an atom
+    that carries the given specifier as its view (obligations C11.from_specifier.* of the C11 check; is_any()/is_empty() exact by C05)"""
+    target = S + "MarkerExpression.from_specifier"
+
+    def __init__(self, th):
+        self.th = th
+
+    def result(self, ex, args):
+        from pyvc.theories import spec as T
+        from pyvc.theories.spec import V
+        _, name, s = args
+        k = ex.choose(4)
+        if k == 0:
+            return None
+        if k == 1:
+            ex.assume(T.den(s, V))
+            return Obj(ex.index.cls("AnyMarker"), {})
+        if k == 2:
+            ex.assume(z3.Not(T.den(s, V)))
+            return Obj(ex.index.cls("EmptyMarker"), {})
+        return Obj(ex.index.cls("MarkerExpression"), {"name": name, "op": z3.String(fresh_name("op")), "value": z3.String(fresh_name("value")), "reversed": False, "_specifier": s})
+
+    def ensures(self, ex, args, result):
+        return []
+
+    def allowed_raise(self, ex, args, exc):
+        return z3.BoolVal(False)
+
+
+class NormalizeAtCallSite(Contract):
+    """_normalize_python_version_specifier used modularly: a canonical specifier over full versions; what it denotes *is* the meaning of the
+    python_version atom on a consistent environment (python_version = the X.Y of python_full_version) - string arithmetic, bounded part"""
+    target = S + "_normalize_python_version_specifier"
+
+    def __init__(self, th):
+        self.th = th
+        self.of = {}
+
+    def result(self, ex, args):
+        from pyvc.theories import spec as T
+        key = id(args[0])
+        if key not in self.of:
+            self.of[key] = (self.th.sshape.fresh("normalized"), args[0])
+        return self.of[key][0]
+
+    def ensures(self, ex, args, result):
+        from pyvc.theories import spec as T
+        return [("normalized.canonical", T.wf(result))]
+
+    def allowed_raise(self, ex, args, exc):
+        return z3.BoolVal(False)
+
+
+def eq_law(ex, a, c):
+    """law.C13 / C05 on specifiers: equal objects admit the same versions"""
+    from pyvc.theories import spec as T
+    from pyvc.theories.spec import V
+    e = z3.Bool(fresh_name("spec_eq"))
+    ex.assume(z3.Implies(e, T.den(a, V) == T.den(c, V)))
+    return e
+
+
+class MergeVersion:
+    """_merge_single_markers on two version-valued atoms: same variable (python_full_version, python_version, platform_release) and the
+    python_version x python_full_version pair, both merge classes.  Meaning of an atom = its specifier view admits the environment's
+    value (the bridge C11 a, bounded); `&`, `|`, `==` on the views by their C01/C05/C13 laws; from_specifier by its C11 contract."""
+    target = S + "_merge_single_markers"
+    key = S + "_merge_single_markers@versions"
+
+    def __init__(self, th):
+        self.th = th
+
+    def cases(self, th):
+        from pyvc.theories import spec as T
+        from pyvc.theories.spec import V
+        from pyvc.values import ClassRef
+        from contracts import laws_spec as L
+        th.laws = dict(L.LAWS, __eq__=eq_law)
+        f = th.index.func(self.target)
+        ME = th.index.cls("MarkerExpression")
+        norm = th.norm_contract
+
+        def atom(name, tag):
+            return Obj(ME, {"name": name, "op": z3.String(fresh_name(tag + "_op")), "value": z3.String(fresh_name(tag + "_value")), "reversed": False,
+                            "_specifier": th.sshape.fresh(tag + "_view")})
+
+        def meaning(ex, o, cross):
+            if o is None or not isinstance(o, Obj):
+                return None
+            if o.cls.name == "AnyMarker":
+                return z3.BoolVal(True)
+            if o.cls.name == "EmptyMarker":
+                return z3.BoolVal(False)
+            if o.cls.name != "MarkerExpression":
+                return None
+            if cross and o.fields["name"] == "python_version":
+                hit = norm.of.get(id(o))
+                if hit is None:
+                    return None
+                return T.den(hit[0], V)
+            return T.den(ex.getattr(o, "specifier"), V)
+
+        pairs = [(n, n) for n in ("python_full_version", "python_version", "platform_release")] + [("python_version", "python_full_version"), ("python_full_version", "python_version")]
+        for kname in ("MultiMarker", "MarkerUnion"):
+            comb = z3.And if kname == "MultiMarker" else z3.Or
+            for n1, n2 in pairs:
+                a, c = atom(n1, "m1"), atom(n2, "m2")
+                cross = n1 != n2
+                pre = [T.wf(a.fields["_specifier"]), T.wf(c.fields["_specifier"])]
+
+                def thunk(ex, a=a, c=c, kname=kname, cross=cross):
+                    norm.of.clear()
+                    r = ex.call_function(f, [a, c, ClassRef(th.index.cls(kname))], inline=True)
+                    return (r, meaning(ex, r, cross), meaning(ex, a, cross), meaning(ex, c, cross))
+
+                def post(ex, v, comb=comb):
+                    r, mr, ma, mc = v
+                    if r is None:
+                        return [("merge.none-allowed", z3.BoolVal(True))]
+                    if mr is None or ma is None or mc is None:
+                        return [("result-is-a-marker-with-a-view", z3.BoolVal(False))]
+                    return [("C02.version-atoms.ev", mr == comb(ma, mc))]
+                yield {"name": f"{n1}|{n2}|{kname}", "pre": pre, "thunk": thunk, "post": post, "args": ()}
 
 
 def describe(m, args, result=None):
